@@ -441,6 +441,31 @@ def run(ctx):  # noqa: C901, PLR0912, PLR0915
     from . import common
     common.copies_are_deep(ctx, 'C03.R4', with_mk_copy=False)
     common.written_entities_are_copied(ctx, 'C03.R4')
+    common.entity_getters_hand_out_copies(ctx, 'C03.R4')   # incl. Entity.update / MultiStateEntity.update
+    ctx.borrow('C12', {'C12.R1'}, 'C03.R4', why='a parsed container shares no default object with other containers')
+    # the pre-commit hook is part of the transaction body: what a role provider raises there aborts the transaction (R2 shows that
+    # an exception at that point commits nothing) - the product does not swallow it
+    bp = repo.classes.get('sdc11073.provider.baseproduct.BaseProduct')
+    if bp is not None:
+        pre = bp.methods.get('_on_pre_commit')
+        todo_, seen_, swallowed = [pre] if pre is not None else [], set(), []
+        while todo_:
+            f_ = todo_.pop()
+            if f_ is None or f_.qual in seen_:
+                continue
+            seen_.add(f_.qual)
+            for t_ in [x for x in walk_no_nested(f_.node) if isinstance(x, ast.Try)]:
+                for h in t_.handlers:
+                    wide_ = h.type is None or unparse(h.type).split('.')[-1] in ('Exception', 'BaseException')
+                    if wide_ and not any(isinstance(x, ast.Raise) for b in h.body for x in ast.walk(b)):
+                        swallowed.append(f'{f_.name}: except {unparse(h.type) if h.type else ""}')
+            for c in calls_in(f_.node):
+                if isinstance(c.func, ast.Attribute) and unparse(c.func.value) == 'self':
+                    todo_.append(bp.methods.get(c.func.attr))
+        ctx.ob('C03.R2', 'pre-commit failures abort the transaction', pre is not None and not swallowed,
+               'BaseProduct._on_pre_commit lets an exception of a role provider reach the transaction manager' if not swallowed else
+               f'BaseProduct._on_pre_commit swallows exceptions ({swallowed}): a role provider that raises for the data of this '
+               f'transaction no longer aborts it - the body and the half-finished additions of the provider are committed', fi=pre)
     # a log call that raises in the middle of the commit leaves it half applied
     common.log_templates_are_constant(ctx, 'C03.R3', ['sdc11073.mdib.transactions', 'sdc11073.mdib.providermdib', 'sdc11073.mdib.mdibbase',
                                                       'sdc11073.multikey'])
@@ -801,6 +826,8 @@ _T = 'src/sdc11073/mdib/transactions.py'
 _P = 'src/sdc11073/mdib/providermdib.py'
 _B = 'src/sdc11073/mdib/mdibbase.py'
 SEEDS = [
+    seed('MultiStateEntity.update refreshes from the MDIB object itself (the defect repaired by 4191469)', 'C03.R4',
+         ('src/sdc11073/mdib/mdibbase.py', "                state.update_from_other_container(copy.deepcopy(orig))", "                state.update_from_other_container(orig)")),
     seed('get_descriptor bumps the version of the MDIB object', 'C03.R1',
          (_T, "        descriptor_container = orig_descriptor_container.mk_copy()\n        descriptor_container.increment_descriptor_version()",
           "        descriptor_container = orig_descriptor_container.mk_copy()\n        orig_descriptor_container.increment_descriptor_version()\n        descriptor_container.increment_descriptor_version()")),
